@@ -3,6 +3,7 @@ import Uquic.Model.H3.Fields
 import Uquic.Model.H3.Writer
 import Uquic.Model.H3.Glue
 import Uquic.Model.H3.ReqLock
+import Uquic.Model.H3.ReqLockFault
 import Uquic.Model.H3.TrailerGate
 import Uquic.Model.H3.RespFault
 import Uquic.Spec.H3FieldsWF
@@ -254,13 +255,15 @@ def cliPart (lim : Int) (rr : Nat) (m : PMsg) (impl : String) : String × List S
 /-! ## conc -/
 
 structure PConc where
+  /-- 0: none; k: the k-th write to the stream fails -/
+  ef : Nat := 0
   at_ : Nat
   gz : Bool
   c : ConcReq
 
 def parseConc (p : String) : PConc :=
   let w := words p
-  { at_ := natOfS (argOf w "at"), gz := argOf w "gz" == "1",
+  { ef := natOfS (argOf w "ef"), at_ := natOfS (argOf w "at"), gz := argOf w "gz" == "1",
     c := { method := unhx (argOf w "m"), host := unhx (argOf w "host"), path := unhx (argOf w "path"), x := unhx (argOf w "x") } }
 
 /-- the request as net/http builds it from the op (`http.NewRequest(m, "https://"+host+path, nil)` + X-Id) -/
@@ -272,18 +275,25 @@ def concStep (parts : List String) (impl : String) : StepOut :=
   let ps := parts.map parseConc
   let blocks : List (Except WErr (List (List Nat × List Nat))) := ps.map fun p => encodeHeaders Uquic.Gen.H3Fields.defaultUserAgent (concWReq p)
   -- the lock model: whatever the interleaving, writer i emits block i (ReqLock.owner is the proved statement)
-  let emitted := Uquic.Model.H3.ReqLock.emittedBlocks ps.length (ps.map (·.at_))
-  let model := " | ".intercalate (emitted.map fun j => match blocks.getD j (.error .host) with
+  -- with injected write errors: the calls take effect one after the other (ReqLockFault); a failed call
+  -- leaves nothing behind (failed_request_leaves_writer_clean)
+  let faulty := ps.any (·.ef != 0)
+  let emitted := if faulty then Uquic.Model.H3.ReqLockFault.emittedBlocks ps.length (ps.map (·.ef))
+    else Uquic.Model.H3.ReqLock.emittedBlocks ps.length (ps.map (·.at_))
+  let model := " | ".intercalate (emitted.map fun j =>
+    if j == ps.length + 1 then "E:other(verif: injected write error)" else
+    match blocks.getD j (.error .host) with
     | .ok fs => ("ok " ++ " ".intercalate (fs.map (fmtFieldTok []))).trimAsciiEnd.toString
     | .error e => e.text)
   let implParts := impl.splitOn " | "
   let fails := (ps.zipIdx.flatMap fun (p, i) =>
     let ip := implParts.getD i ""
     let got := if ip.startsWith "ok" then some (parseFieldToks ((words ip).drop 1)).1 else none
-    concMonitors i p.c got)
+    -- a request whose write was made to fail has nothing to show
+    if p.ef != 0 then [] else concMonitors i p.c got)
   let interleaved := ps.any (fun p => p.at_ < 2)
   { model := model, tags := ["conc"] ++ (if interleaved then ["conc:interleaved"] else []) ++ (if ps.length > 2 then ["conc:3"] else []) ++
-      (if ps.any (·.gz) then ["conc:gzip"] else []), fails := fails }
+      (if ps.any (·.gz) then ["conc:gzip"] else []) ++ (if faulty then ["conc:write-error"] else []), fails := fails }
 
 /-! ## rsp -/
 
